@@ -238,7 +238,161 @@ func c03MonOwner(c *ctx, w *hWorld, pre []map[string]*hAccount, sr *stepResult, 
 	}
 }
 
-var c03Mons = []c05Mon{c03MonRole, c03MonSystem, c03MonOwner}
+// ---------------------------------------------------------------------------------------------
+// history-based expectation of every role list: the list each (shard, account, token) SHOULD hold according to the
+// successful ESDTSetRole / ESDTUnSetRole / hand-over operations seen so far (set appends the given roles; unset removes
+// one occurrence of each given role that is present, in argument order; hand-over removes / adds the create role as the
+// code does).  The stored lists are compared with it after every call, and role-gated successes are judged against the
+// expected list as well as the stored one — a revocation that returns Ok but leaves the role in storage is then seen.
+// Baseline = the stored lists when a world is first observed.  c05Save / c05Restore carry the expectation along.
+// ---------------------------------------------------------------------------------------------
+type c03Expect struct {
+	lists map[string][][]byte // "shard/addr/token" -> roles
+}
+
+var c03Exp = map[*hWorld]*c03Expect{}
+
+func c03ExpKey(shard uint32, addr, tok []byte) string {
+	return fmt.Sprintf("%d/%x/%x", shard, addr, tok)
+}
+
+func (e *c03Expect) clone() *c03Expect {
+	n := &c03Expect{lists: map[string][][]byte{}}
+	for k, v := range e.lists {
+		n.lists[k] = append([][]byte(nil), v...)
+	}
+	return n
+}
+
+func c03Baseline(pre []map[string]*hAccount) *c03Expect {
+	e := &c03Expect{lists: map[string][][]byte{}}
+	for sh, m := range pre {
+		for _, a := range m {
+			for k, v := range a.storage {
+				if strings.HasPrefix(k, c05R) {
+					if r, err := c05DecodeRoles(v); err == nil && len(r.Roles) > 0 {
+						e.lists[c03ExpKey(uint32(sh), a.addr, []byte(k[len(c05R):]))] = r.Roles
+					}
+				}
+			}
+		}
+	}
+	return e
+}
+
+func c03Remove1(l [][]byte, r []byte) [][]byte {
+	for i, x := range l {
+		if bytes.Equal(x, r) {
+			return append(append([][]byte(nil), l[:i]...), l[i+1:]...)
+		}
+	}
+	return l
+}
+
+func c03AddCreate(l [][]byte) [][]byte {
+	if c03Has(l, "ESDTRoleNFTCreate") {
+		return l
+	}
+	return append(append([][]byte(nil), l...), []byte("ESDTRoleNFTCreate"))
+}
+
+// apply: the effect a SUCCESSFUL call has on the expected lists
+func (e *c03Expect) apply(w *hWorld, cs *callSpec) {
+	if len(cs.Args) == 0 {
+		return
+	}
+	tok := cs.Args[0]
+	k := c03ExpKey(cs.Shard, cs.Rcpt, tok)
+	switch cs.Fn {
+	case "ESDTSetRole":
+		e.lists[k] = append(append([][]byte(nil), e.lists[k]...), cs.Args[1:]...)
+	case "ESDTUnSetRole":
+		l := e.lists[k]
+		for _, r := range cs.Args[1:] {
+			l = c03Remove1(l, r)
+		}
+		e.lists[k] = l
+	case "ESDTNFTCreateRoleTransfer":
+		if bytes.Equal(cs.Caller, vmcommon.ESDTSCAddress) {
+			e.lists[k] = c03Remove1(e.lists[k], []byte("ESDTRoleNFTCreate"))
+			if len(cs.Args) >= 2 && w.shardOf(cs.Args[1]) == cs.Shard {
+				k2 := c03ExpKey(cs.Shard, cs.Args[1], tok)
+				e.lists[k2] = c03AddCreate(e.lists[k2])
+			}
+		} else {
+			e.lists[k] = c03AddCreate(e.lists[k])
+		}
+	}
+}
+
+func c03SameList(a, b [][]byte) bool {
+	if len(a) != len(b) {
+		return false
+	}
+	for i := range a {
+		if !bytes.Equal(a[i], b[i]) {
+			return false
+		}
+	}
+	return true
+}
+
+// monitor (1b): role lists follow the history of system-contract operations
+func c03MonRoleHistory(c *ctx, w *hWorld, pre []map[string]*hAccount, sr *stepResult, hist []string) {
+	e := c03Exp[w]
+	if e == nil {
+		e = c03Baseline(pre)
+		c03Exp[w] = e
+	}
+	cs := sr.Call
+	if sr.Res.Status != 0 {
+		return
+	}
+	// role-gated success judged against the EXPECTED list (before this call)
+	if req := c03Required(cs); req != nil && len(cs.Args) > 0 {
+		held := e.lists[c03ExpKey(cs.Shard, cs.Caller, cs.Args[0])]
+		for _, r := range req {
+			if !c03Has(held, r) {
+				c.fail("monitor", "role-missing-by-history/"+cs.Fn+"/"+r, fmt.Sprintf("%s succeeded although, by the history of ESDTSetRole / ESDTUnSetRole / hand-over operations, the caller's role list for token %q is %q (no %s)", cs.Fn, cs.Args[0], held, r), c05Replay(sr, hist))
+				break
+			}
+		}
+	}
+	e.apply(w, cs)
+	// stored lists of the executing shard == expected lists
+	sh := cs.Shard
+	seen := map[string]bool{}
+	for _, ak := range sortedAccts(w.shards[sh].accounts) {
+		a := w.shards[sh].accounts[ak]
+		for _, k := range sortedKeys(a.storage) {
+			if !strings.HasPrefix(k, c05R) {
+				continue
+			}
+			ek := c03ExpKey(sh, a.addr, []byte(k[len(c05R):]))
+			seen[ek] = true
+			var got [][]byte
+			if r, err := c05DecodeRoles(a.storage[k]); err == nil {
+				got = r.Roles
+			}
+			if !c03SameList(got, e.lists[ek]) {
+				c.fail("monitor", "role-list-mismatch/"+cs.Fn, fmt.Sprintf("after %s the role list of account %x for token %q is %q, the history of role operations gives %q", cs.Fn, a.addr, k[len(c05R):], got, e.lists[ek]), c05Replay(sr, hist))
+				e.lists[ek] = got // report once, then follow the storage
+			}
+		}
+	}
+	prefix := fmt.Sprintf("%d/", sh)
+	for ek, l := range e.lists {
+		if len(l) > 0 && !seen[ek] && strings.HasPrefix(ek, prefix) {
+			c.fail("monitor", "role-list-mismatch/"+cs.Fn, fmt.Sprintf("after %s a role list that the history gives as %q (%s) is absent from storage", cs.Fn, l, ek), c05Replay(sr, hist))
+			delete(e.lists, ek)
+		}
+	}
+	if cs.Fn == "ESDTSetRole" || cs.Fn == "ESDTUnSetRole" || cs.Fn == "ESDTNFTCreateRoleTransfer" {
+		c.count("c03/role-history/compared-after/" + cs.Fn)
+	}
+}
+
+var c03Mons = []c05Mon{c03MonRole, c03MonRoleHistory, c03MonSystem, c03MonOwner}
 
 // ---------------------------------------------------------------------------------------------
 // family 1: role matrix — every subset of the 7 roles x every gated function x placement of the list
@@ -398,6 +552,142 @@ func c03CreateQuantities(c *ctx, u *universe, emitEvery int) {
 	}
 	if okBig == 0 || okOne == 0 {
 		c.fail("harness", "setup/create-quantity-vacuous", "the create-quantity family never saw a successful create (quantity 1 / quantity > 1 with both roles)", nil)
+	}
+}
+
+// ---------------------------------------------------------------------------------------------
+// family 1c: histories of multi-role sets and unsets in every order: not-held roles before / after / between held
+// ones, duplicates in the argument list and in the stored list, unknown and empty role names, unset of all roles (the
+// entry must disappear), each followed by every gated call (a revoked role must stop working)
+// ---------------------------------------------------------------------------------------------
+func c03RoleHistories(c *ctx, u *universe, emitEvery int, random int) {
+	T, T2 := u.NFTs[1], u.NFTs[0]
+	A := u.U[0]
+	meta := [][]byte{[]byte("name"), be(100), []byte("hash"), []byte("attr"), []byte("uri")}
+	gated := []struct {
+		fn   string
+		args [][]byte
+	}{
+		{"ESDTLocalMint", [][]byte{T, be(5)}},
+		{"ESDTLocalBurn", [][]byte{T, be(1)}},
+		{"ESDTNFTCreate", append([][]byte{T, be(1)}, meta...)},
+		{"ESDTNFTCreate", append([][]byte{T, be(2)}, meta...)},
+		{"ESDTNFTAddQuantity", [][]byte{T, be(1), be(1)}},
+		{"ESDTNFTBurn", [][]byte{T, be(1), be(1)}},
+		{"ESDTNFTAddURI", [][]byte{T, be(1), []byte("u")}},
+		{"ESDTNFTUpdateAttributes", [][]byte{T, be(1), []byte("a")}},
+	}
+	names := append(append([][]byte{}, u.AllRoles...), []byte("ESDTRoleBogus"), nil, []byte("ESDTRoleNFTCreat"))
+	newScen := func(seed int) *c05Scen {
+		w := u.stdWorld(2, 1, distinctGas(uint64(10+seed%7), 3))
+		s := &c05Scen{c: c, u: u, w: w, label: "role-history", mons: c03Mons, emitEvery: 0}
+		c05Must(s.sys(A, "ESDTTransfer", T, be(100000)), "history issue")
+		c05Must(s.sys(A, "ESDTSetRole", T, u.AllRoles[2], u.AllRoles[3]), "history temp roles")
+		c05Must(s.tx(A, A, "ESDTNFTCreate", bigGas, append([][]byte{T, be(100000)}, meta...)...), "history create")
+		c05Must(s.sys(A, "ESDTUnSetRole", T, u.AllRoles[3], u.AllRoles[2]), "history unset")
+		s.emitEvery = emitEvery
+		return s
+	}
+	probe := func(s *c05Scen) {
+		for _, g := range gated {
+			sr := s.tx(A, A, g.fn, bigGas, g.args...)
+			c.count("c03/role-history/gated-call/" + statusName(sr.Res.Status))
+		}
+	}
+	stored := func(s *c05Scen) [][]byte { return c03RolesHeld(s.w.shards[0].account(A), T) }
+	set := func(s *c05Scen, tok []byte, rs ...[]byte) { s.sys(A, "ESDTSetRole", append([][]byte{tok}, rs...)...) }
+	unset := func(s *c05Scen, tok []byte, rs ...[]byte) { s.sys(A, "ESDTUnSetRole", append([][]byte{tok}, rs...)...) }
+	R := u.AllRoles
+	bogus := []byte("ESDTRoleBogus")
+	// structured: for every ordered pair of held roles (h1, h2) and a not-held role n
+	for i := 0; i < 7; i++ {
+		for j := 0; j < 7; j++ {
+			if i == j {
+				continue
+			}
+			h1, h2, n := R[i], R[j], R[(j+1+(i+6)%5)%7]
+			if bytes.Equal(n, h1) || bytes.Equal(n, h2) {
+				n = bogus
+			}
+			s := newScen(i*7 + j)
+			set(s, T, h1, h2)
+			probe(s)
+			unset(s, T, n, h2) // a not-held role BEFORE a held one
+			probe(s)
+			unset(s, T, h1, n) // ... and AFTER a held one: the list is empty now
+			if len(stored(s)) != 0 {
+				c.count("c03/role-history/entry-left-after-unset-all")
+			}
+			probe(s)
+			set(s, T, h2, h1, h2) // duplicate in the argument list
+			unset(s, T, bogus, nil, h2, n, h1)
+			probe(s) // one h2 is left
+			unset(s, T, h2, h2)
+			probe(s)
+			set(s, T2, h1, h2) // the same roles for another token do not count
+			probe(s)
+		}
+	}
+	// all seven set, then removed in several orders with strangers interleaved, then unset of everything at once
+	for variant := 0; variant < 6; variant++ {
+		s := newScen(variant)
+		set(s, T, R...)
+		probe(s)
+		switch variant {
+		case 0:
+			unset(s, T, bogus, R[6], R[5], R[4], R[3], R[2], R[1], R[0])
+		case 1:
+			unset(s, T, R[0], bogus, R[1], nil, R[2], bogus, R[3], R[4], R[5], R[6])
+		case 2:
+			unset(s, T, R[3], R[3], R[2]) // the second R[3] is not held any more when its turn comes
+			probe(s)
+			unset(s, T, R[0], R[1], R[4], R[5], R[6])
+		case 3:
+			for k := 0; k < 7; k++ {
+				unset(s, T, bogus, R[k])
+				probe(s)
+			}
+		case 4:
+			unset(s, T2, R...) // another token: nothing may change for T
+			probe(s)
+			unset(s, T, R...)
+		case 5:
+			unset(s, T, append(append([][]byte{}, R...), R...)...)
+		}
+		probe(s)
+		if len(stored(s)) != 0 {
+			c.fail("monitor", "role-list-mismatch/ESDTUnSetRole", fmt.Sprintf("every role was unset but the entry still holds %q", stored(s)), c05Replay(s.last, s.hist))
+		}
+		if _, ok := s.w.shards[0].account(A).storage[c05R+string(T)]; ok {
+			c.fail("monitor", "role-list-mismatch/ESDTUnSetRole", "every role was unset but the role entry did not disappear", c05Replay(s.last, s.hist))
+		}
+	}
+	// random histories of sets / unsets with 1-4 role names each (duplicates, strangers, empty names), gated calls in between
+	for h := 0; h < random; h++ {
+		s := newScen(h)
+		for k := 0; k < 10; k++ {
+			var rs [][]byte
+			for n := 1 + c.rng.Intn(4); n > 0; n-- {
+				if c.rng.Intn(4) == 0 {
+					rs = append(rs, names[c.rng.Intn(len(names))])
+				} else {
+					rs = append(rs, R[c.rng.Intn(7)])
+				}
+			}
+			tok := T
+			if c.rng.Intn(6) == 0 {
+				tok = T2
+			}
+			if c.rng.Intn(5) < 2 {
+				set(s, tok, rs...)
+			} else {
+				unset(s, tok, rs...)
+			}
+			if c.rng.Intn(2) == 0 {
+				probe(s)
+			}
+		}
+		probe(s)
 	}
 }
 
@@ -615,7 +905,7 @@ func init() {
 		u := newUniverse()
 		wide := c.thorough() || c.widen
 		runtime.GOMAXPROCS(1) // sequential run; exec reads runtime.MemStats around every call (stop-the-world)
-		c.rep.Rule = "Monitors on the real built-ins after every executed call, against the deep pre-state of all shards: (1) a successful role-gated call (LocalMint, LocalBurn, NFTCreate [+AddQuantity role when quantity > 1], AddQuantity, NFTBurn, AddURI, UpdateAttributes) implies that the caller's own decoded role list under ELRONDroleesdt+token in the pre-state holds the required role(s); (2) any change of a role list, a fungible entry's frozen flag, a 2-byte pause flag in the system account, a wipe, or a create counter outside the creator's own ESDTNFTCreate implies caller = ESDT SC address, or the call has the hand-over continuation shape (ESDTNFTCreateRoleTransfer with the sender account not local); (3) owner / developer reward / balance fields change only by ChangeOwnerAddress / ClaimDeveloperRewards of the recipient's current owner, the user name only by SetUserName of a configured DNS address; any other attempt changes no cell on any shard (origin-side executions without a local recipient change nothing and may emit the travelling message); rejected calls change nothing. Families: role matrix (all 128 subsets of the 7 roles x 8 gated calls x {list for that token, only for a different token, held by another account, no list}, roles installed with the real ESDTSetRole / ESDTUnSetRole); ESDTNFTCreate quantities {0, 1, 2, 3, 2^64-1, 2^64, 2^64+1, 2^64+2, 2^72+1, 2^128, 2^128+1, 100-byte values incl. low 64 bits = 1, leading zeros} x callers holding NFTCreate with / without NFTAddQuantity (also AddQuantity only for a different token or at another account), compared as big integers; system-only functions x 10 caller identities x 4 presence patterns x 3 call variants (must fail and leave the world digest unchanged, control: the system contract); owner / DNS enumeration (12 callers x 4 targets x call types, gas, presence patterns, same and cross shard with delivery, ownership histories, user-name change enabled and disabled); random walks with raised system / account / hostile weights. Executed calls are re-evaluated in the Coq model (status + full post-state). distinct = distinct (world state, operation)."
+		c.rep.Rule = "Monitors on the real built-ins after every executed call, against the deep pre-state of all shards: (1) a successful role-gated call (LocalMint, LocalBurn, NFTCreate [+AddQuantity role when quantity > 1], AddQuantity, NFTBurn, AddURI, UpdateAttributes) implies that the caller's own decoded role list under ELRONDroleesdt+token in the pre-state holds the required role(s), AND that the list EXPECTED from the history of successful ESDTSetRole / ESDTUnSetRole / hand-over operations (set appends, unset removes one occurrence of each listed role, hand-over moves the create role) holds them; after every call every stored role list of the executing shard equals the expected one (role-list-mismatch); (2) any change of a role list, a fungible entry's frozen flag, a 2-byte pause flag in the system account, a wipe, or a create counter outside the creator's own ESDTNFTCreate implies caller = ESDT SC address, or the call has the hand-over continuation shape (ESDTNFTCreateRoleTransfer with the sender account not local); (3) owner / developer reward / balance fields change only by ChangeOwnerAddress / ClaimDeveloperRewards of the recipient's current owner, the user name only by SetUserName of a configured DNS address; any other attempt changes no cell on any shard (origin-side executions without a local recipient change nothing and may emit the travelling message); rejected calls change nothing. Families: role matrix (all 128 subsets of the 7 roles x 8 gated calls x {list for that token, only for a different token, held by another account, no list}, roles installed with the real ESDTSetRole / ESDTUnSetRole); ESDTNFTCreate quantities {0, 1, 2, 3, 2^64-1, 2^64, 2^64+1, 2^64+2, 2^72+1, 2^128, 2^128+1, 100-byte values incl. low 64 bits = 1, leading zeros} x callers holding NFTCreate with / without NFTAddQuantity (also AddQuantity only for a different token or at another account), compared as big integers; role histories (multi-role sets / unsets in every order, not-held roles before / after / between held ones, duplicates, unknown and empty names, unset of everything: the entry must disappear; structured for all ordered pairs of roles plus random histories), every gated call after each step; system-only functions x 10 caller identities x 4 presence patterns x 3 call variants (must fail and leave the world digest unchanged, control: the system contract); owner / DNS enumeration (12 callers x 4 targets x call types, gas, presence patterns, same and cross shard with delivery, ownership histories, user-name change enabled and disabled); random walks with raised system / account / hostile weights. Executed calls are re-evaluated in the Coq model (status + full post-state). distinct = distinct (world state, operation)."
 		c05SetExecStream(c, c05ProjState)
 		e := 5
 		if wide {
@@ -623,6 +913,11 @@ func init() {
 		}
 		c03RoleMatrix(c, u, e)
 		c03CreateQuantities(c, u, 2)
+		if wide {
+			c03RoleHistories(c, u, 9, 400)
+		} else {
+			c03RoleHistories(c, u, 9, 40)
+		}
 		c03SystemOnly(c, u, e-1)
 		c03OwnerDNS(c, u, e, false)
 		c03OwnerDNS(c, u, e*2, true)
